@@ -2,3 +2,4 @@
 import McpModel.Base.Proto
 import McpModel.EventStore.Props
 import McpModel.EventStore.Driver
+import McpModel.Resume.Driver
